@@ -410,12 +410,12 @@ int main(int argc, char **argv)
 	if (!strcmp(mode, "sweep"))
 		sweep();
 	else if (!strcmp(mode, "co")) {
-		long long n = vh_opt.cases ? vh_opt.cases : (vh_opt.thorough ? 200000 : 6000);
+		long long n = vh_opt.cases ? vh_opt.cases : (vh_opt.thorough ? 1000000 : 6000);
 		for (long long c = vh_opt.proc; c < n && vh_nviol < 8; c += vh_opt.nproc)
 			if (vh_opt.only_case < 0 || c == vh_opt.only_case)
 				co_case(c);
 	} else {
-		long long n = vh_opt.cases ? vh_opt.cases : (vh_opt.thorough ? 400000 : 8000);
+		long long n = vh_opt.cases ? vh_opt.cases : (vh_opt.thorough ? 2000000 : 8000);
 		for (long long c = vh_opt.proc; c < n && vh_nviol < 8; c += vh_opt.nproc)
 			if (vh_opt.only_case < 0 || c == vh_opt.only_case)
 				random_case(c);
